@@ -1212,6 +1212,9 @@ func (st *Runtime) evalPipeCallExpression(baseExpr reflect.Value, args CallArgs,
 	if !baseExpr.IsValid() {
 		return reflect.Value{}, errors.New("base of call expression is invalid value")
 	}
+	if baseExpr.Kind() == reflect.Func && baseExpr.IsNil() {
+		return reflect.Value{}, fmt.Errorf("call of nil function (%s)", baseExpr.Type())
+	}
 	if funcType.AssignableTo(baseExpr.Type()) {
 		return callFunc(baseExpr.Interface().(Func), Arguments{runtime: st, args: args, pipedVal: pipedArg})
 	}
